@@ -81,6 +81,7 @@ class Gen:
         self.s = {}          # slot -> dict(kind=val|array|list|table|tree, ty, vt, data)
         self.t = {}          # tuple slot -> dict(ty, data=[literals])  (heap Tuples: harness-only operations)
         self.lines = []
+        self.keep = KeepGen(rng, self.emit)
     # values
     def ival(self):
         r = self.r; x = r.random()
@@ -214,6 +215,7 @@ class Gen:
             if x is None: return
             o = self.s[x]; v = self.val(o['ty']); o['data'] = v; self.emit('vset', x, v)
         elif op == 'tuple': self.tuple_op()
+        elif op == 'keep': self.keep.step()
         elif op == 'probe': self.probe_op()
         elif op == 'ring': self.ring_op()
         elif op == 'exc':
@@ -332,6 +334,121 @@ class Gen:
         elif k == 10: self.emit('tpush', r.randrange(MAXT), dead)
         else: self.emit('del', dead)
 
+# ------------------------------------------------------------------------------------------------ keep programs
+MAXH = 8
+KINDS = 'altkrqucs'
+SEQ_KINDS = 'aluc'
+class KeepGen:
+    """containers (every kind that declares Mark, Ref/Box chains, thread-local storage) as the SOLE path to collector-managed
+    objects; allocation pressure / forced collections; every element read back.  Emits into the same op file as Gen."""
+    def __init__(self, rng, emit, serial0=0):
+        self.r = rng; self.emit = emit
+        self.h = {}                 # holder slot -> dict(kind, keys=[...] (maps) / n (sequences))
+        self.serial = serial0
+    def fresh_serial(self):
+        self.serial += 1
+        return self.serial - 1
+    def new(self, kind=None):
+        fr = [i for i in range(MAXH) if i not in self.h]
+        if not fr or self.serial > 3900: return None
+        h = self.r.choice(fr); kind = kind or self.r.choice(KINDS)
+        self.h[h] = dict(kind=kind, keys=[], n=0); self.emit('hnew', h, kind)
+        return h
+    def size(self, h): o = self.h[h]; return o['n'] if o['kind'] in SEQ_KINDS else len(o['keys'])
+    def put(self, h, key=None):
+        o = self.h[h]
+        if self.size(h) >= 110 or self.serial > 3900: return
+        pay = self.r.randrange(0, 10**6)
+        if o['kind'] in SEQ_KINDS:
+            k = o['n'] if (key is None and self.r.random() < 0.7) else (self.r.randrange(0, o['n'] + 1) if key is None else key)
+            o['n'] += 1
+        else:
+            k = key
+            while k is None or k in o['keys']:
+                x = self.r.random()
+                # keys whose home slot lies beyond the item count (k mod nslots large), colliding keys, small keys
+                k = self.r.randrange(0, 30) if x < 0.3 else self.r.randrange(30, 200) if x < 0.7 else self.r.randrange(0, 40) * LCM if x < 0.8 else self.r.randrange(0, 10**6)
+            o['keys'].append(k)
+        self.emit('hput', h, k, self.fresh_serial(), pay)
+    def fill(self, h, n, lo=None):
+        """n elements; for maps the keys lo..lo+n-1 (home slots beyond the item count when lo >= n)"""
+        o = self.h[h]
+        for i in range(n):
+            if o['kind'] in SEQ_KINDS: self.put(h, key=o['n'])
+            else:
+                k = (lo if lo is not None else 40) + i
+                if k not in o['keys']: self.put(h, key=k)
+    def pick_elem(self, h):
+        o = self.h[h]
+        if self.size(h) == 0: return None
+        return self.r.randrange(0, o['n']) if o['kind'] in SEQ_KINDS else self.r.choice(o['keys'])
+    def remove(self, h, op=None):
+        k = self.pick_elem(h)
+        if k is None: return
+        o = self.h[h]
+        if o['kind'] in SEQ_KINDS: o['n'] -= 1
+        else: o['keys'].remove(k)
+        self.emit(op or self.r.choice(['hrem', 'hrel']), h, k)
+    def shrink(self, h):
+        o = self.h[h]
+        if o['kind'] in SEQ_KINDS:
+            n = self.r.randrange(0, o['n'] + 1); o['n'] = n
+        else:
+            n = 0; o['keys'] = []
+        self.emit('hshrink', h, n)
+    def pressure(self):
+        for _ in range(self.r.choice([1, 1, 2, 3])): self.emit('hchurn', self.r.choice([40, 100, 200, 400]))
+        if self.r.random() < 0.4: self.emit('gc')
+    def step(self):
+        r = self.r; x = r.random()
+        live = list(self.h)
+        if not live or x < 0.05:
+            if self.new() is None and live: self.kill(r.choice(live))
+            return
+        h = r.choice(live); o = self.h[h]
+        if x < 0.40: self.put(h)
+        elif x < 0.50: self.remove(h)
+        elif x < 0.55: self.emit('hget', h, self.pick_elem(h)) if self.size(h) else self.put(h)
+        elif x < 0.70: self.emit('hread', h)
+        elif x < 0.84: self.pressure()
+        elif x < 0.88: self.shrink(h)
+        elif x < 0.92 and o['kind'] in 'tk': self.emit('hreserve', h, r.randrange(max(1, self.size(h)), 300))
+        elif x < 0.96: self.kill(h)
+        else: self.bad()
+    def kill(self, h):
+        del self.h[h]; self.emit(self.r.choice(['hdrop', 'hdel']), h)
+    def bad(self):
+        """outside the contract: every build and the model refuse it identically"""
+        r = self.r; k = r.randrange(7)
+        dead = next((i for i in range(MAXH) if i not in self.h), None)
+        live = list(self.h)
+        if k == 0 and dead is not None: self.emit('hread', dead)
+        elif k == 1 and live: h = r.choice(live); self.emit('hget', h, 10**6 + 5 if self.h[h]['kind'] not in SEQ_KINDS else self.h[h]['n'])
+        elif k == 2 and live: self.emit('hnew', r.choice(live), 'a')
+        elif k == 3: self.emit('hchurn', 401)
+        elif k == 4 and live: self.emit('hput', r.choice(live), 0, 0 if self.serial else 5000, 1)
+        elif k == 5: self.emit('hnew', 9, 't')
+        else: self.emit('hnew', 1, 'z')
+    def scenario(self, kind):
+        """the directed shape: fill one container so that it is the only path to its objects, allocate until the collector has run
+        several times, read everything back; then removals / shrinking, again pressure, again everything read back"""
+        r = self.r
+        h = self.new(kind)
+        if h is None: return
+        n = r.choice([5, 17, 40, 60])
+        self.fill(h, n, lo=r.choice([n, n, 40, 0, 3 * n]))
+        self.emit('hread', h)
+        self.pressure(); self.pressure()
+        self.emit('hread', h)
+        for _ in range(r.randrange(0, n // 2 + 1)): self.remove(h)
+        if r.random() < 0.5 and kind in 'tk': self.emit('hreserve', h, r.randrange(max(1, self.size(h)), 200))
+        if r.random() < 0.4: self.shrink(h)
+        for _ in range(r.randrange(0, 8)): self.put(h)
+        self.pressure()
+        self.emit('hread', h)
+        if self.size(h): self.emit('hget', h, self.pick_elem(h))
+        if r.random() < 0.6: self.kill(h)
+
 PROFILES = {
     'mixed':  dict(probe=3, ring=1, new=10, kill=6, push=14, pop=8, read=12, set=5, sort=3, mset=12, mread=9, mrem=5, copy=4, concat=2, resize=1, cmp=4, vset=2, exc=2, tonly=8, tuple=8),
     'seq':    dict(probe=1, ring=1, new=6, kill=3, push=30, pop=16, read=14, set=8, sort=6, copy=3, concat=4, resize=2, cmp=4, tonly=6, exc=1),
@@ -339,13 +456,15 @@ PROFILES = {
     'churn':  dict(probe=3, ring=4, new=30, kill=26, copy=12, push=6, mset=6, read=4, mread=4, vset=4, tonly=6, exc=2, tuple=14, _drop=0.6),   # allocation pressure: collector at work
     'views':  dict(probe=8, ring=1, new=8, kill=3, push=14, pop=4, tonly=50, read=6, vset=4, exc=6, cmp=4),
     'tuples': dict(probe=2, ring=2, new=10, kill=4, vset=6, tuple=60, tonly=4, exc=2, copy=3, _drop=0.3),   # heap Tuples whose items only the Tuple references
+    'keep':   dict(probe=1, ring=1, new=8, kill=4, push=4, mset=4, read=2, mread=2, copy=2, tonly=2, keep=70, _drop=0.5),   # containers as the sole path to managed objects
 }
 
 class C18(Spec):
     id = 'C18'; engine = 'cfg'; harness = 'h_cfg'; driver = 'drv_cfg'
     generators = ('Cfg',)
     harness_timeout = 120
-    technique = ('Lean 4 proof over a configuration-indexed model of an API step (checks / method cache / collector), source-derived '
+    technique = ('Lean 4 proof over a configuration-indexed model of an API step (checks / method cache / collector) and of heap-graph programs whose '
+                 'containers are the sole path to managed objects (collector = the C01 marker on what each Mark instance presents), source-derived '
                  'tables of every conditional-compilation block re-extracted and re-checked each run, and a differential build matrix '
                  '(configuration switches x optimisation levels) of one interpreted public-API workload')
     level_text = ('Theorem C18_config_independent: in the model of an API step (type_of checks, cached Type_Instance, method check, guarded '
@@ -354,7 +473,14 @@ class C18(Spec):
                   'combination of the three switches. C18_checks_only_guard_raises / C18_collector_blocks_only_register / '
                   'C18_static_header_matches_struct are decided over tables regenerated from /repo on every run (every #if CELLO_*_CHECK, '
                   '#ifndef CELLO_NGC and #if CELLO_CACHE block, struct Header, the CelloObject literal), so a source change that puts a needed '
-                  'side effect under a switch breaks the build of the theorem. Optimisation levels are not modelled: they are compared.')
+                  'side effect under a switch breaks the build of the theorem. Optimisation levels are not modelled: they are compared. '
+                  'Keep programs (containers of every kind that declares Mark, Ref/Box chains, thread-local storage as the SOLE path to '
+                  'collector-managed objects): C18_keep_config_independent — any two configurations compute the same outcomes on every such '
+                  'program, whenever and however often either collector ran (C18_keep_collection_schedule_irrelevant); '
+                  'C18_collect_preserves_reachable — GC_Mark;GC_Sweep (the marker of Cello/Heap.lean, proved complete in C01, run on what each '
+                  'Mark instance presents) keeps every block reachable through what the containers HOLD; C18_mark_covers_container — every Mark '
+                  'instance covers everything its container holds, stated over the loop bound of Table_Mark and the Mark texts regenerated from '
+                  '/repo (C18_mark_functions_as_modelled), so a Mark function that skips slots or items breaks the build of the theorems.')
     level_note = ('PARTIAL by nature: the compiler is not modelled; optimisation levels and the real effect of the switches on the C code are '
                   'covered by the differential build matrix (testing). Trusted: Lean kernel; translate/g_cfg.py (text-level extraction); '
                   'the harness/driver/transcript comparison; clang, libc.')
@@ -362,8 +488,13 @@ class C18(Spec):
             'remove/get/set/mem/len/sort/copy/concat/resize/compare, map set/get/rem/mem, iteration both ways, caught and nested '
             'exceptions; transcript-only: hash, show, print_to formats, Float, range/slice/reverse/enumerate/zip/filter/map views, forced '
             'collections, heap Tuples whose items only the Tuple references, probe types implementing 17 of the 18 cached classes queried in '
-            'random orders cold and warm, dropped rings of Boxes owning each other followed by allocation churn), six profiles (mixed, sequences, maps with colliding keys, '
-            'allocation churn with dropped objects, views, tuples), ~2% '
+            'random orders cold and warm, dropped rings of Boxes owning each other followed by allocation churn; keep programs `h…`: holders of nine kinds — Array/List '
+            'of Ref, Table and Tree with the pointer in the value (Int->Ref) or in the key (KCell->Int), heap Tuple, Ref/Box chain through the last word of a '
+            'plain struct, thread-local storage — each the only path to its Tracked objects, filled (maps with keys whose home slots lie beyond the item '
+            'count, colliding keys, rehash by resize), put under allocation pressure and forced collections, every element read back (serial, payload, type) '
+            'after removals with and without del, shrinking and clearing; a destructor ledger audited after every operation: no stored object finalised, none '
+            'twice, del finalises at once), seven profiles (mixed, sequences, maps with colliding keys, '
+            'allocation churn with dropped objects, views, tuples, keep; every case starts with one directed keep scenario, the nine kinds in rotation), ~2% '
             'deliberately out-of-contract operations that every build and the model must refuse identically. Each file runs on the default '
             'build + Lean driver (O lines compared) and on every build of the matrix (O and T lines compared byte for byte with the default '
             'build). non-trivial item = an operation that was in contract and executed (not refused); distinct = distinct (operation text, '
@@ -371,10 +502,12 @@ class C18(Spec):
     trusted_base = ('translate/g_cfg.py (regex/brace-level extraction from Cello.h and src/*.c)',
                     'harness/h_cfg.c with its C shadow oracle, lean/Driver/Cfg.lean, the transcript comparison (testing)',
                     'clang-14 at -O0/-O2/-O3 with and without ASan/UBSan; libc',
-                    'the model abstracts objects to values (no addresses): layouts (header size, cache words) are covered by the table theorems and the build matrix')
+                    'the model abstracts objects to values (no addresses): layouts (header size, cache words) are covered by the table theorems and the build matrix',
+                    'keep programs: Cello/Heap.lean (marker, C01) and Cello/Table.lean (slot placement, C02) are imported as they are; the model collects when ITS registry count passes the threshold, the real collector at other moments (the registry also holds the rest of the workload): C18_keep_collection_schedule_irrelevant is what bridges the two; Tree shape is not modelled (Tree_Mark = in-order walk over all nodes)')
     assumptions = ('in-contract programs only: every operation is validated against the harness shadow first; bad index, absent key, wrong element type, dead handle are refused before the call',
                    'known-finding territory avoided: Table/Tree equality and hashing (F06), Slice with stop/step (F11), Zip backward (F12), repeated pointers in Tuples (F13), del while the collector is stopped (F23), Box elements (F28), print_to error paths (F29)',
                    'single thread; no allocation failure; String values <= 30 bytes, containers <= 120 elements',
+                   'keep programs: non-negative Int keys <= 10^6, no overwriting of an existing key, at most 8 holders x 120 elements, each Tracked object stored in exactly one place (no sharing, no cycles), Box only as a chain link (F28); released objects are never required to be collected (conservative stack scan)',
                    'optimisation levels are compared on the generated workloads, not proved')
     def __init__(self):
         self._cases = {}; self._ref = {}
@@ -391,6 +524,10 @@ class C18(Spec):
             # prologue: each probe type queried cold in its own random order; one or two owning rings dropped early
             for _ in range(3): g.probe_op(cold=True)
             for _ in range(rng.randrange(1, 3)): g.ring_op()
+            # one directed keep scenario per case, the container kinds in rotation (so every kind is the sole path to managed
+            # objects under allocation pressure in every run); the `keep` profile goes on mixing them at random
+            g.keep.scenario(KINDS[i % len(KINDS)])
+            if prof == 'keep': g.keep.scenario(rng.choice('tk'))
             for _ in range(length): g.step()
             c = Case(f'{prof}{i}b{boost}', g.lines)
             cs.append(c); self._cases[c.name] = c
@@ -423,6 +560,14 @@ class C18(Spec):
             acc['model_config_divergences'] = acc.get('model_config_divergences', 0) + int(m.group(4))
             acc['model_collections'] = acc.get('model_collections', 0) + int(m.group(5))
             acc['model_cache_fills'] = acc.get('model_cache_fills', 0) + int(m.group(6))
+        m = re.search(r'keep-ops=(\d+) keep-collections=(\d+) keep-high-slot-entries=(\d+) keep-heap-default=(\d+) keep-heap-ngc=(\d+)', m_out)
+        if m:
+            for k, g in (('model_keep_ops', 1), ('model_keep_collections', 2), ('model_keep_high_slot_entries_read', 3), ('model_keep_blocks_default', 4), ('model_keep_blocks_ngc', 5)):
+                acc[k] = acc.get(k, 0) + int(m.group(g))
+        m = re.search(r'keep-ops=(\d+) keep-reads=(\d+) high-slot-entries-read=(\d+) tracked=(\d+)', c_out)
+        if m:
+            for k, g in (('impl_keep_ops', 1), ('impl_keep_reads', 2), ('impl_keep_high_slot_entries_read', 3), ('impl_tracked_objects', 4)):
+                acc[k] = acc.get(k, 0) + int(m.group(g))
     # ---------------------------------------------------------------- the build matrix
     def model_selfcheck(self, case, m_out):
         if 'O model-config-divergence' in m_out:
